@@ -353,3 +353,27 @@ MUTANTS += [
  dict(id="C15-encoder-buffer-20", props=["C15"], expect={"C15": r"encode20#buffer"},
       edits=[(WP+"common.rs", "    let mut str_buffer = [0u8; 40];", "    let mut str_buffer = [0u8; 20];")]),
 ]
+
+MUTANTS += [
+ dict(id="C18-udp-buffer-512", props=["C18"], expect={"C18": r"default#udp#mio#announce|fit#udp#mio"},
+      edits=[(US+"common.rs", "pub const BUFFER_SIZE: usize = 8192;", "pub const BUFFER_SIZE: usize = 512;")]),
+ dict(id="C18-udp-validation-counts-ipv4-peers", props=["C18"], expect={"C18": r"fit#udp#(mio|uring)#announce"},
+      edits=[(US+"workers/socket/mod.rs", ".saturating_mul(size_of::<ResponsePeer<Ipv6AddrBytes>>());", ".saturating_mul(size_of::<ResponsePeer<aquatic_udp_protocol::Ipv4AddrBytes>>());")]),
+ dict(id="C18-udp-validation-after-spawn", props=["C18"], expect={"C18": r"fit#udp#(mio|uring)#announce"},
+      edits=[(US+"lib.rs", "    workers::socket::validate_response_sizes(&config)?;\n\n    if config.socket_workers == 0 {", "    if config.socket_workers == 0 {"),
+             (US+"lib.rs", "    // Spawn cleaning thread", "    workers::socket::validate_response_sizes(&config)?;\n\n    // Spawn cleaning thread")]),
+ dict(id="C18-udp-validation-result-ignored", props=["C18"], expect={"C18": r"fit#udp#(mio|uring)#announce"},
+      edits=[(US+"lib.rs", "    workers::socket::validate_response_sizes(&config)?;", "    let _ = workers::socket::validate_response_sizes(&config);")]),
+ dict(id="C18-http-buffer-back-to-4096", props=["C18"], expect={"C18": r"fit#http#scrape"},
+      edits=[(HC+"connection.rs", "const RESPONSE_BUFFER_SIZE: usize = 8192;", "const RESPONSE_BUFFER_SIZE: usize = 4096;")]),
+ dict(id="C18-http-validation-forgets-trailer-and-base", props=["C18"], expect={"C18": r"fit#http#announce"},
+      edits=[(HC+"connection.rs", "        + MAX_ANNOUNCE_RESPONSE_BASE_LEN\n        + config.protocol.max_peers.saturating_mul(MAX_PEER_LEN)\n        + 2;", "        + config.protocol.max_peers.saturating_mul(MAX_PEER_LEN);")]),
+ dict(id="C18-uring-request-buffer-128", props=["C18"], expect={"C18": r"recv#udp#uring#announce"},
+      edits=[(UR+"mod.rs", "const REQUEST_BUF_LEN: usize = 512;", "const REQUEST_BUF_LEN: usize = 128;")]),
+ dict(id="C18-uring-response-buffer-1024", props=["C18"], expect={"C18": r"fit#udp#uring#(announce|scrape)"},
+      edits=[(UR+"mod.rs", "pub(super) const RESPONSE_BUF_LEN: usize = 2048;", "pub(super) const RESPONSE_BUF_LEN: usize = 1024;"),
+             (US+"workers/socket/mod.rs", "        if max_announce_response_len > self::uring::RESPONSE_BUF_LEN {", "        if max_announce_response_len > 2048 {"),
+             (US+"workers/socket/mod.rs", "        if max_scrape_response_len > self::uring::RESPONSE_BUF_LEN {", "        if max_scrape_response_len > 2048 {")]),
+ dict(id="C18-http-scrape-more-digits", props=["C18"], expect={"C18": r"fit#http#scrape|stream#http"},
+      edits=[("crates/http_protocol/src/response.rs", "            bytes_written += output.write(b\"e10:downloadedi0e10:incompletei\")?;", "            bytes_written += output.write(b\"e10:downloadedi00000000000000000000000000000000000000000000000000000000000000000000000000000000e10:incompletei\")?;")]),
+]
